@@ -6980,3 +6980,157 @@ func isLoadOf(v ssa.Value, p ssa.Value) bool {
 	u, ok := v.(*ssa.UnOp)
 	return ok && u.Op == token.MUL && u.X == p
 }
+
+// ---------------------------------------------------------------------------------------------
+// R20.69 — a closure that signs off once per call does so on every exit
+
+func init() {
+	register(ruleDef{ID: "R20.69", Prop: "C20", Tier: "quick", Floor: 1,
+		Title: "a closure that signs off once per call does so on every exit: in the datastore, server, storage and datatype packages, a function literal that calls Done() on a captured WaitGroup outside every loop of its own (and not in a defer) passes a Done on every path to a return — a callback or goroutine that returns early on an error leaves the request that waits for it blocked for ever",
+		Fn:    ruleClosureSignsOffOnEveryExit})
+}
+
+func ruleClosureSignsOffOnEveryExit(r *Run) {
+	w := r.W
+	n := 0
+	for _, g := range w.RepoFuncs {
+		if len(g.Blocks) == 0 || g.Parent() == nil || isTestFunc(w, g) {
+			continue
+		}
+		p := relPkg(pkgPathOf(g))
+		if !(strings.HasPrefix(p, "datatype/") || p == "datastore" || p == "server" || strings.HasPrefix(p, "storage")) {
+			continue
+		}
+		// group the Done calls by captured group
+		groups := map[ssa.Value][]ssa.CallInstruction{}
+		deferred := map[ssa.Value]bool{}
+		for _, c := range calls(g) {
+			callee := staticCallee(c)
+			if callee == nil || callee.Name() != "Done" || callee.Pkg == nil || callee.Pkg.Pkg.Path() != "sync" || len(c.Common().Args) == 0 {
+				continue
+			}
+			if !strings.Contains(c.Common().Args[0].Type().String(), "sync.WaitGroup") {
+				continue
+			}
+			root := captureRoot(c.Common().Args[0])
+			if root.Parent() == g {
+				continue // the closure's own group
+			}
+			if _, isDefer := c.(*ssa.Defer); isDefer {
+				deferred[root] = true
+				continue
+			}
+			groups[root] = append(groups[root], c)
+		}
+		for _, c := range calls(g) {
+			if d, isDefer := c.(*ssa.Defer); isDefer {
+				if mc, ok := d.Call.Value.(*ssa.MakeClosure); ok {
+					if cl, ok := mc.Fn.(*ssa.Function); ok {
+						for _, c2 := range calls(cl) {
+							if callee := staticCallee(c2); callee != nil && callee.Name() == "Done" && callee.Pkg != nil && callee.Pkg.Pkg.Path() == "sync" && len(c2.Common().Args) > 0 {
+								deferred[captureRoot(c2.Common().Args[0])] = true
+							}
+						}
+					}
+				}
+			}
+		}
+		var keys []ssa.Value
+		for k := range groups {
+			keys = append(keys, k)
+		}
+		sort.Slice(keys, func(i, j int) bool { return keys[i].Pos() < keys[j].Pos() })
+		for _, root := range keys {
+			if deferred[root] {
+				continue
+			}
+			outLoop := false
+			for _, c := range groups[root] {
+				if _, set, _ := innermostLoop(g, c.Block()); set == nil {
+					outLoop = true
+				}
+			}
+			if !outLoop {
+				continue
+			}
+			n++
+			isDone := func(x ssa.Instruction) bool {
+				for _, c := range groups[root] {
+					if x == ssa.Instruction(c) {
+						return true
+					}
+				}
+				return false
+			}
+			// handing the item on to a consumer (a send) hands the sign-off on with it
+			signedOff := func(x ssa.Instruction) bool {
+				if _, isSend := x.(*ssa.Send); isSend {
+					return true
+				}
+				return isDone(x)
+			}
+			pth := findPath(g, nil, signedOff, func(x ssa.Instruction) bool { _, isRet := x.(*ssa.Return); return isRet }, neverNilReceived(g))
+			gname := root.Name()
+			if al, ok := root.(*ssa.Alloc); ok && al.Comment != "" {
+				gname = al.Comment
+			}
+			r.check(pth == nil, fname(g)+":"+gname+":done-on-every-exit", "every path to a return passes the Done",
+				"the function literal can return without calling Done() on the WaitGroup its starter waits on: after an early error return the waiting request blocks for ever", w.fpos(g), w.renderPath(pth)...)
+		}
+	}
+	r.check(n >= 10, "repo:per-call-closures", fmt.Sprintf("%d", n), "too few: rule needs review", "-")
+}
+
+// neverNilReceived prunes the "received element is nil" edge of a test on an element received from a captured
+// channel when every send on that channel, in the outermost enclosing function and its closures, sends the
+// address of a fresh composite.
+func neverNilReceived(g *ssa.Function) edgeFilter {
+	top := g
+	for top.Parent() != nil {
+		top = top.Parent()
+	}
+	tree := closureTree(top)
+	allFresh := func(ch ssa.Value) bool {
+		n := 0
+		for _, x := range tree {
+			for _, b := range x.Blocks {
+				for _, in := range b.Instrs {
+					s, ok := in.(*ssa.Send)
+					if !ok || captureRoot(s.Chan) != ch {
+						continue
+					}
+					n++
+					if _, fresh := s.X.(*ssa.Alloc); !fresh {
+						return false
+					}
+				}
+			}
+		}
+		return n >= 1
+	}
+	return func(b *ssa.BasicBlock, i int) bool {
+		ifi, ok := b.Instrs[len(b.Instrs)-1].(*ssa.If)
+		if !ok {
+			return true
+		}
+		bo, ok := ifi.Cond.(*ssa.BinOp)
+		if !ok || !(bo.Op == token.EQL || bo.Op == token.NEQ) || !isNilConst(bo.Y) {
+			return true
+		}
+		v := bo.X
+		if ex, ok := v.(*ssa.Extract); ok {
+			v = ex.Tuple
+		}
+		u, ok := v.(*ssa.UnOp)
+		if !ok || u.Op != token.ARROW {
+			return true
+		}
+		if !allFresh(captureRoot(u.X)) {
+			return true
+		}
+		if bo.Op == token.EQL {
+			return i == 1
+		}
+		return i == 0
+	}
+}
